@@ -54,6 +54,9 @@ def run_case(case):
             if st["op"] in ("shell", "exec_out"):
                 st["timeout_s"] = rng.choice([0.5, 2.0, 8.0])
     sess = gen.make_session(case["impl"], sc["dims"], case["seed"], **kw)
+    abort = any(st.get("fail") for st in sc["steps"]) and int(case["seed"].split(":")[-1]) % 2 == 0
+    # (an older adbd: after a FileSync FAIL the service closes the stream at once instead of reading on to the host's DONE; WRTEs that arrive later are never acknowledged)
+    sess.sim.sync_plan.abort_on_fail = abort
     r = scen.Runner(sess, sc)
     try:
         res = r.run()
@@ -78,6 +81,7 @@ def run_case(case):
         stats["directory_pushes_with_unreadable_entry"] = sum(1 for (st_, o, _) in res if st_["op"] == "pushdir" and any(k == "dangling" for (_, _, k) in st_["files"]))
         stats["sync_service_died"] = sum(1 for (st_, o, _) in res if st_.get("dies"))
         stats["opens_answered_late"] = sum(1 for (st_, o, _) in res if st_.get("late_open"))
+        stats["pushes_aborted_by_device_close"] = sum(1 for ds in sess.sim.all_streams if getattr(ds, "aborted", False))
         stats["early_close_cases"] = 1 if sc["dims"]["early_close"] else 0
         stats["pulls_into_full_disk"] = sum(1 for (st_, o, _) in res if st_.get("dest") == "failing")
         stats["side_result_mismatches"] = sum(len(v) for (_, _, v) in res)
